@@ -4,18 +4,32 @@ Import ListNotations.
 Open Scope Z_scope.
 
 Definition MAXI := 2 ^ 63 - 1.
+(* Go's int64 addition wraps; now() + ttl is computed in int64 *)
+Definition wrap64 (x : Z) : Z := (x + 2 ^ 63) mod 2 ^ 64 - 2 ^ 63.
 Record node := { key : Z; val : Z; dl : Z }.
 Record cache := { size : Z; dttl : Z; l : list node }.          (* l: most recently used first *)
 Record setopt := { s_ttl : option Z; mne : bool; keep : bool }.
 Record getopt := { rag : bool; upd : option Z }.
-Inductive res := Ok (v : Z) | Done | Exists | NotFound.
+Inductive res := Ok (v : Z) | Done | Exists | NotFound | Fail (e : Z).   (* Fail: any other error / panic; the memory back-end never produces it *)
 
-Definition deadline (ttl now : Z) : Z := if ttl <=? 0 then MAXI else now + ttl.
+Definition deadline (ttl now : Z) : Z := if ttl <=? 0 then MAXI else wrap64 (now + ttl).
+(* the int64 sum does not overflow: the clock is an int64 reading and now + ttl fits *)
+Definition fits (ttl now : Z) : Prop := - 2 ^ 63 <= now <= MAXI /\ (0 < ttl -> now + ttl <= MAXI).
+Lemma wrap64_id x : - 2 ^ 63 <= x <= MAXI -> wrap64 x = x.
+Proof. intros H. unfold wrap64, MAXI in *. rewrite Z.mod_small by lia. lia. Qed.
+Lemma deadline_fits ttl now : fits ttl now -> deadline ttl now = if ttl <=? 0 then MAXI else now + ttl.
+Proof.
+  intros [Hn Ht]. unfold deadline. destruct (ttl <=? 0) eqn:E; [reflexivity|]. apply Z.leb_gt in E.
+  apply wrap64_id. specialize (Ht E). unfold MAXI in *. lia.
+Qed.
 Definition find_k (k : Z) (l : list node) : option node := find (fun n => key n =? k) l.
 Definition erase (k : Z) (l : list node) : list node := filter (fun n => negb (key n =? k)) l.
 
+Definition set_ttl (c : cache) (o : setopt) : Z := match s_ttl o with Some t => t | None => dttl c end.
+Definition upd_ttl (c : cache) (t : Z) : Z := if t =? 0 then dttl c else t.
+
 Definition set (c : cache) (k v : Z) (o : setopt) (now : Z) : cache * res :=
-  let ttl := match s_ttl o with Some t => t | None => dttl c end in
+  let ttl := set_ttl c o in
   (* repaired: an expired entry is removed first and the key counts as absent *)
   let '(l0, cur) := match find_k k (l c) with
                     | Some n => if dl n <? now then (erase k (l c), None) else (l c, Some n)
@@ -37,10 +51,19 @@ Definition get (c : cache) (k : Z) (o : getopt) (now : Z) : cache * res :=
     if dl n <? now then ({| size := size c; dttl := dttl c; l := erase k (l c) |}, NotFound)
     else if rag o then ({| size := size c; dttl := dttl c; l := erase k (l c) |}, Ok (val n))
     else let d := match upd o with
-                  | Some t => deadline (if t =? 0 then dttl c else t) now
+                  | Some t => deadline (upd_ttl c t) now
                   | None => dl n end in
          ({| size := size c; dttl := dttl c; l := {| key := k; val := val n; dl := d |} :: erase k (l c) |}, Ok (val n))
   end.
+
+Lemma set_cfg c k v o now : size (fst (set c k v o now)) = size c /\ dttl (fst (set c k v o now)) = dttl c.
+Proof.
+  unfold set. destruct (find_k k (l c)) as [n|]; [destruct (dl n <? now); [|destruct (mne o)]|]; cbn [fst size dttl]; split; reflexivity.
+Qed.
+Lemma get_cfg c k o now : size (fst (get c k o now)) = size c /\ dttl (fst (get c k o now)) = dttl c.
+Proof.
+  unfold get. destruct (find_k k (l c)) as [n|]; [destruct (dl n <? now); [|destruct (rag o)]|]; cbn [fst size dttl]; split; reflexivity.
+Qed.
 
 Definition expired (c : cache) (k now : Z) : Prop := exists n, find_k k (l c) = Some n /\ dl n < now.
 Definition without (c : cache) (k : Z) : cache := {| size := size c; dttl := dttl c; l := erase k (l c) |}.
